@@ -513,6 +513,8 @@ package desync
 //@ ghost var $deleted int
 //@ ghost var $upstream int
 //@ ghost var $had bool
+//@ ghost var $wlooked bool
+//@ ghost var $whad bool
 //@ ghost var $prev *request
 
 //@ guard queue: requests by mu inv forall k ChunkID :: has(self.requests, k) ==> self.requests[k] != nil
@@ -615,8 +617,13 @@ package desync
 //@   requires held(q.storeChunkQueue.mu) == 0 && held(q.DedupQueue.getChunkQueue.mu) == 0
 //@   requires ref(q.storeChunkQueue) != ref(q.DedupQueue.getChunkQueue)
 //# reads consult the in-flight write queue first: the read queue is used only when no store of the same ID is in flight
-//@   oncall GetChunk: requires !isInFlight
-//@   oncall wait: requires held(q.storeChunkQueue.mu) == 0 && isInFlight
+//# (stated over what was seen in the write queue while its lock was held, not over the local that holds it)
+//@   ghost@entry $wlooked = false
+//@   ghost@entry $whad = false
+//@   ghost@before:Unlock $whad = has(q.storeChunkQueue.requests, id)
+//@   ghost@after:Unlock $wlooked = true
+//@   oncall GetChunk: requires $wlooked && !$whad
+//@   oncall wait: requires held(q.storeChunkQueue.mu) == 0 && $wlooked && $whad
 //@   ensures held(q.storeChunkQueue.mu) == old(held(q.storeChunkQueue.mu))
 
 // ---------------------------------------------------------------------------- C09: random access through an index
@@ -1451,13 +1458,27 @@ package desync
 // ---------------------------------------------------------------------------- C14: remote transports
 
 //@ ghost var $st int
+//@ ghost var $hdo error
+//@ ghost var $hread error
+//@ ghost var $hgot bool
 //# $st: status code answered by the latest (retryable) request
 
 //# one HTTP exchange through net/http: does not touch the repository's own data structures
 //@ func (r *RemoteHTTPBase) IssueHttpRequest
-//@   trusted
+//@   prop C14
+//@   safety none
+//@   trusted ensures
 //@   pure
 //@   ensures !is(r2, NoSuchObject) && !is(r2, ChunkMissing) && !is(r2, ChunkInvalid)
+//# a status and a body are handed out (nil error) only if sending the request and reading the whole response body
+//# both succeeded: a response cut short is an error for the retry loop, never a short body with a normal status
+//@   ghost@entry $hdo = nil
+//@   ghost@entry $hread = nil
+//@   ghost@entry $hgot = false
+//@   ghost@after:Do $hdo = $r1
+//@   ghost@after:ReadAll $hread = $r1
+//@   ghost@after:ReadAll $hgot = true
+//@   assert@returned $ret2 == nil ==> $hgot && $hdo == nil && $hread == nil
 
 //@ func (r *RemoteHTTPBase) IssueRetryableHttpRequest
 //@   prop C14
@@ -1670,7 +1691,7 @@ package desync
 //# C05: an entry is packed inside a directory's element exactly when the directory is its parent, under the
 //# last component of its name
 //@   oncall tar#2: requires @C05,C13 pdir($arg3.Path) == dir
-//@   modifies all, $wn, $w, $wid, $sawDone
+//@   modifies all, $wn, $w, $wid, $sawDone, $gbfixed, $gbprev
 //@   ghost@recv:ctx.Done() $sawDone = true
 //# every element handed to the encoder carries its own type and a size field equal to the bytes its encoding takes
 //# (payload: the size field is 16 + the file size reported by the filesystem reader; that this equals the number of
@@ -1689,6 +1710,16 @@ package desync
 //@   loop 2: invariant $wn >= old($wn) && n == $wn - old($wn)
 //@   loop 3: invariant $wn >= old($wn) && n == $wn - old($wn)
 //@   loop 4: invariant $wn >= old($wn) && n == $wn - old($wn)
+//# goodbye items: while the children are packed an item holds the child's start (a forward position inside this
+//# directory's element); the fix-up loop replaces every start by the distance back from the goodbye element
+//# (n - start), and it has run over the whole list - whatever its length - before the goodbye element is encoded.
+//# (What the items hold across the calls made while packing the children is not tracked: the list lives on the
+//# heap and those calls are opaque.)
+//@   ghost@loop4.head $gbprev = items[i].Offset
+//@   assert@loop4.iterend @C13 items[i].Offset == n - $gbprev || items[i].Offset == n - $gbprev + 18446744073709551616
+//@   ghost@entry $gbfixed = false
+//@   ghost@loop4.exit $gbfixed = true
+//@   assert@before:Encode @C13 is($a0, FormatGoodbye) ==> $gbfixed
 
 // ---------------------------------------------------------------------------------------------
 // C03: the remaining backends hand every body they fetched to the verifying constructor with the
@@ -1696,6 +1727,8 @@ package desync
 
 //# the skip flag of the pooled connection that served the request (every connection carries the store's options)
 //@ ghost var $sftpSkip bool
+//@ ghost var $gbfixed bool
+//@ ghost var $gbprev int
 
 //@ func (s S3Store) GetChunk
 //@   prop C03
@@ -2118,6 +2151,29 @@ package desync
 //@   ensures stdDecoder(decoder)
 
 //@ owner @C20 var: encoder, decoder by init:encoder, init:decoder
+
+//# the compression layer stores exactly what Compress made of the chunk and hands back exactly what Decompress
+//# made of the stored bytes - no shortcut for data that does not shrink, no pass-through for bytes that are not
+//# a zstd frame (a .cacnk file is always one standard frame)
+//@ ghost var $zres []byte
+//@ ghost var $zdone bool
+//@ func (d Compressor) toStorage
+//@   prop C20
+//@   safety none
+//@   ghost@entry $zdone = false
+//@   oncall Compress: requires $arg0 == in
+//@   ghost@after:Compress $zres = $r0
+//@   ghost@after:Compress $zdone = true
+//@   assert@returned $ret1 == nil ==> $zdone && $ret0 == $zres
+
+//@ func (d Compressor) fromStorage
+//@   prop C20
+//@   safety none
+//@   ghost@entry $zdone = false
+//@   oncall Decompress: requires $arg1 == in
+//@   ghost@after:Decompress $zres = $r0
+//@   ghost@after:Decompress $zdone = true
+//@   assert@returned $ret1 == nil ==> $zdone && $ret0 == $zres
 
 //@ func Compress
 //@   prop C20
